@@ -237,6 +237,93 @@ func c11LeanLine(c *engine.Ctx, counter string, a, b, p [2]float64) {
 	}
 }
 
+// c11Euclid: the sign of the 2x2 determinant behind the ray-crossing count is found by a
+// Euclid-like reduction whose number of rounds is greatest for consecutive convergents of continued
+// fractions with small partial quotients (Fibonacci, Pell, ...). For EVERY periodic quotient word of
+// period <= 3 over {1,2,3,4} and EVERY pair of consecutive convergent vectors w_k, w_k+1 that fits
+// the 2^26 grid (determinant +-1: the query point is the lattice point nearest to the edge without
+// being on it), in all 8 symmetries of the plane: the triangle (p-w_k, p+w_k+1, corner) for each of
+// the four corners of the grid, both directions, queried at p and its four lattice neighbours,
+// against the exact even-odd rule.
+func c11Euclid(c *engine.Ctx) {
+	const lim = 1 << 26
+	var words [][]int64
+	for a := int64(1); a <= 4; a++ {
+		words = append(words, []int64{a})
+		for b := int64(1); b <= 4; b++ {
+			words = append(words, []int64{a, b})
+			for d := int64(1); d <= 4; d++ {
+				words = append(words, []int64{a, b, d})
+			}
+		}
+	}
+	c.Note("euclid_worst_case_words", fmt.Sprintf("%d periodic partial-quotient words (period <= 3 over 1..4), every consecutive convergent pair with span <= 2^27, 8 symmetries x 4 corners x 2 directions x 5 queries", len(words)))
+	c.Parallel(len(words), func(wi int) {
+		w := words[wi]
+		prev, cur := [2]int64{1, 0}, [2]int64{0, 1}
+		for k := 0; ; k++ {
+			q := w[k%len(w)]
+			next := [2]int64{q*cur[0] + prev[0], q*cur[1] + prev[1]}
+			prev, cur = cur, next
+			if prev[0]+cur[0] > 2*lim || prev[1]+cur[1] > 2*lim {
+				return
+			}
+			for sym := 0; sym < 8; sym++ {
+				tr := func(v [2]int64) [2]int64 {
+					if sym&1 != 0 {
+						v[0] = -v[0]
+					}
+					if sym&2 != 0 {
+						v[1] = -v[1]
+					}
+					if sym&4 != 0 {
+						v[0], v[1] = v[1], v[0]
+					}
+					return v
+				}
+				u, v := tr(prev), tr(cur)
+				u[0], u[1] = -u[0], -u[1]
+				var p [2]int64
+				for d := 0; d < 2; d++ {
+					lo, hi := min(0, u[d], v[d]), max(0, u[d], v[d])
+					p[d] = -(lo + hi) / 2
+					if p[d]+lo < -lim {
+						p[d] = -lim - lo
+					}
+					if p[d]+hi > lim {
+						p[d] = lim - hi
+					}
+				}
+				for corner := 0; corner < 4; corner++ {
+					cx, cy := float64(lim), float64(lim)
+					if corner&1 != 0 {
+						cx = -cx
+					}
+					if corner&2 != 0 {
+						cy = -cy
+					}
+					a := [2]float64{float64(p[0] + u[0]), float64(p[1] + u[1])}
+					b := [2]float64{float64(p[0] + v[0]), float64(p[1] + v[1])}
+					for rev := 0; rev < 2; rev++ {
+						ring := []ref.F{ref.F(a[0]), ref.F(a[1]), ref.F(b[0]), ref.F(b[1]), ref.F(cx), ref.F(cy), ref.F(a[0]), ref.F(a[1])}
+						if rev == 1 {
+							ring = []ref.F{ref.F(a[0]), ref.F(a[1]), ref.F(cx), ref.F(cy), ref.F(b[0]), ref.F(b[1]), ref.F(a[0]), ref.F(a[1])}
+						}
+						for _, dq := range [][2]int64{{0, 0}, {1, 0}, {-1, 0}, {0, 1}, {0, -1}} {
+							qx, qy := p[0]+dq[0], p[1]+dq[1]
+							if qx < -lim || qx > lim || qy < -lim || qy > lim {
+								continue
+							}
+							c.Count("euclid_worst_case_queries", 1)
+							c11Exec(c, c11Case{Mode: "ring", Ring: ring, P: []ref.F{ref.F(qx), ref.F(qy)}, Layout: geom.XY})
+						}
+					}
+				}
+			}
+		}
+	})
+}
+
 func c11Run(c *engine.Ctx) {
 	// point-on-line over moderate-magnitude floats: the near-collinear families of C10 (float-line
 	// lattice, exactly collinear mixed-magnitude triples with ulp perturbations, segments through
@@ -526,6 +613,7 @@ func c11Run(c *engine.Ctx) {
 	// start vertices. One library call per query against the answer known by construction (the
 	// construction itself is checked against the exact rule on the small towers first); a
 	// disagreement goes through c11Exec for the exact verdict.
+	c11Euclid(c)
 	towerNs := []int{2050, 4200, 10000}
 	if c.Thorough() {
 		towerNs = append(towerNs, 33000)
